@@ -55,7 +55,11 @@ class SimReader(AbstractReader):
             traces = list(traces)
         ids = self._ids[traces]
         self._storage.fetch('samples', self._tag, ids)
-        r = self._samples[ids]
+        if len(ids) and np.array_equal(ids, np.arange(ids[0], ids[0] + len(ids))):
+            r = self._samples[int(ids[0]):int(ids[0]) + len(ids)]      # a VIEW of the stored samples, as estraces' RAM reader gives: code that
+            #                                                            works in place on a batch damages the storage, and later reads show it
+        else:
+            r = self._samples[ids]
         r = r[:, _np_index(frame)]
         return np.ascontiguousarray(r)
 
@@ -91,4 +95,5 @@ class SimReader(AbstractReader):
 
 def make_ths(storage, samples, meta, tag):
     from estraces import build_trace_header_set
-    return build_trace_header_set(SimReader(storage, samples, meta, tag), name=tag)
+    # the reader owns a private copy: what the harness computes its expectations from is never aliased by the system under test
+    return build_trace_header_set(SimReader(storage, np.array(samples, copy=True), {k: np.array(v, copy=True) for k, v in meta.items()}, tag), name=tag)
